@@ -228,3 +228,7 @@ def check(case):
             case.equal(P.n_parameters(), nb + nt, 'posterior n_parameters')
             case.equal(P.get_parameter_names(), names_want, 'posterior names')
             case.equal(P.get_id(), ids_want, 'posterior ids')
+
+
+RULE += (' Classes and clauses added in later rounds of the seeded-change protocol (DESIGN 9.4) are named in REQUIRED '
+         'and in seeded/HISTORY.json; the evidence counts every one of them under classes.')
